@@ -170,6 +170,103 @@ impl RemAssign<&BigInt> for BigInt {
 //@ end
 }
 
+impl AddSpecImpl<&BigInt> for &BigInt {
+    open spec fn obeys_add_spec() -> bool { false }
+    open spec fn add_req(self, rhs: &BigInt) -> bool { self.wfi() && rhs.wfi() }
+    open spec fn add_spec(self, rhs: &BigInt) -> BigInt { arbitrary() }
+}
+impl Add<&BigInt> for &BigInt {
+    type Output = BigInt;
+//@ stub i_addsub/add_rr
+}
+impl SubSpecImpl<&BigInt> for &BigInt {
+    open spec fn obeys_sub_spec() -> bool { false }
+    open spec fn sub_req(self, rhs: &BigInt) -> bool { self.wfi() && rhs.wfi() }
+    open spec fn sub_spec(self, rhs: &BigInt) -> BigInt { arbitrary() }
+}
+impl Sub<&BigInt> for &BigInt {
+    type Output = BigInt;
+//@ stub i_addsub/sub_rr
+}
+impl MulSpecImpl<&BigInt> for &BigInt {
+    open spec fn obeys_mul_spec() -> bool { false }
+    open spec fn mul_req(self, rhs: &BigInt) -> bool { self.wfi() && rhs.wfi() }
+    open spec fn mul_spec(self, rhs: &BigInt) -> BigInt { arbitrary() }
+}
+impl Mul<&BigInt> for &BigInt {
+    type Output = BigInt;
+//@ stub i_mul/mul_rr
+}
+
+impl BigInt {
+    // contract-only re-homing of `impl CheckedAdd / CheckedSub / CheckedMul for BigInt` (external traits) and the inherent forms: never None
+//@ extract src/bigint/addition.rs :: impl CheckedAdd for BigInt :: fn checked_add rename=checked_add_t props=C01,C14 label=checked_add_trait
+    fn checked_add_t(&self, v: &BigInt) -> /*+*/(r: /*-*/Option<BigInt>/*+*/)/*-*/
+//+{
+        requires self.wfi(), v.wfi()
+        ensures r is Some, r.unwrap().wfi(), r.unwrap().iv() == self.iv() + v.iv()
+//+}
+    {
+        Some(self.add(v))
+    }
+//@ end
+
+//@ extract src/bigint/subtraction.rs :: impl CheckedSub for BigInt :: fn checked_sub rename=checked_sub_t props=C01,C14 label=checked_sub_trait
+    fn checked_sub_t(&self, v: &BigInt) -> /*+*/(r: /*-*/Option<BigInt>/*+*/)/*-*/
+//+{
+        requires self.wfi(), v.wfi()
+        ensures r is Some, r.unwrap().wfi(), r.unwrap().iv() == self.iv() - v.iv()
+//+}
+    {
+        Some(self.sub(v))
+    }
+//@ end
+
+//@ extract src/bigint/multiplication.rs :: impl CheckedMul for BigInt :: fn checked_mul rename=checked_mul_t props=C02,C14 label=checked_mul_trait
+    fn checked_mul_t(&self, v: &BigInt) -> /*+*/(r: /*-*/Option<BigInt>/*+*/)/*-*/
+//+{
+        requires self.wfi(), v.wfi()
+        ensures r is Some, r.unwrap().wfi(), r.unwrap().iv() == self.iv() * v.iv()
+//+}
+    {
+        Some(self.mul(v))
+    }
+//@ end
+
+//@ extract src/bigint.rs :: impl BigInt :: fn checked_add ufcs=self+v props=C01,C14 label=checked_add_inherent
+    pub fn checked_add(&self, v: &BigInt) -> /*+*/(r: /*-*/Option<BigInt>/*+*/)/*-*/
+//+{
+        requires self.wfi(), v.wfi()
+        ensures r is Some, r.unwrap().wfi(), r.unwrap().iv() == self.iv() + v.iv()
+//+}
+    {
+        Some(Add::add(self, v))
+    }
+//@ end
+
+//@ extract src/bigint.rs :: impl BigInt :: fn checked_sub ufcs=self-v props=C01,C14 label=checked_sub_inherent
+    pub fn checked_sub(&self, v: &BigInt) -> /*+*/(r: /*-*/Option<BigInt>/*+*/)/*-*/
+//+{
+        requires self.wfi(), v.wfi()
+        ensures r is Some, r.unwrap().wfi(), r.unwrap().iv() == self.iv() - v.iv()
+//+}
+    {
+        Some(Sub::sub(self, v))
+    }
+//@ end
+
+//@ extract src/bigint.rs :: impl BigInt :: fn checked_mul ufcs=self*v props=C02,C14 label=checked_mul_inherent
+    pub fn checked_mul(&self, v: &BigInt) -> /*+*/(r: /*-*/Option<BigInt>/*+*/)/*-*/
+//+{
+        requires self.wfi(), v.wfi()
+        ensures r is Some, r.unwrap().wfi(), r.unwrap().iv() == self.iv() * v.iv()
+//+}
+    {
+        Some(Mul::mul(self, v))
+    }
+//@ end
+}
+
 impl BigInt {
     // contract-only re-homing of `impl CheckedDiv for BigInt` (external trait) and the inherent checked_div
 //@ extract src/bigint/division.rs :: impl CheckedDiv for BigInt :: fn checked_div rename=checked_div_t props=C03,C14 label=checked_div_trait
